@@ -343,43 +343,37 @@ def rule_int_vars(ctx):
     from .. import leaves
     fx = ctx.facts
     b = body_of(fx, "int_variables", NT) if False else fx.fn("natural::int_variables")
-    ev_ = sym.Eval(fx, inline_depth=0)
-    ev_.effect_calls = {"Extend::extend", "IndexSet::extend", "IndexSet::insert", "IndexSet::append", "Vec::push", "Vec::extend"}
-    ev_.function(b, [("param", "$r")])
+    from .. import comp
+    comp.use(fx)
     R = ("param", "$r")
+    v = comp.canon(sym.Eval(fx, inline_depth=0).function(b, [R]))
     TERMS = ("call", "Rule::terms", (R,))
-    TERM = ("each", TERMS)
+    TERM = ("at", TERMS)
     FORMS = ("fieldof", ("fieldof", R, "body"), "formulas")
-    CMP = ("proj", ("each", FORMS), (("AtomicFormula::Comparison", "0"),))
+    CMP = ("proj", ("at", FORMS), (("AtomicFormula::Comparison", "0"),))
 
-    def names_of(src):
-        return ("call", "Iterator::map", (("call", "Term::variables", (src,)), ("closure", ("v",), ("fieldof", ("param", "v"), "0"))))
-    got = []
-    for conds, loops, eff in ev_.out:
-        if eff[0] != "emit" or eff[1] not in ev_.effect_calls:
-            continue
-        nest, mp, flt = leaves.loop_nest_filtered(loops)
-        cv = lambda x: leaves.norm(leaves.strip_acc(leaves.replace(x, mp)))
-        ts = []
-        for c, pol in list(conds) + flt:
-            r = leaves.cond_tests(cv(c), pol)
-            ts += r or [("dead",)]
-        got.append((tuple(cv(n) for n in nest), frozenset(t for t in ts if t[0] != "survived"), cv(eff[2][1]) if len(eff[2]) > 1 else None))
-    eq_rel = ("cond", ("bin", "Eq") + tuple(sorted((("ctor", "Relation::Equal", ()), ("fieldof", CMP, "relation")), key=repr)), True)
+    def names_of(outer, tests, src):
+        """one loop over `outer`, and for its elements satisfying `tests` a loop over the variables of `src`, adding each one's name"""
+        vs = ("call", "Term::variables", (src,))
+        return ((outer, vs), ((frozenset(tests), ("fieldof", ("at", vs), "0")),))
+    eq_rel = ("cond", ("bin", "Eq") + tuple(sorted((("ctor", "Relation::Equal", ()), ("fieldof", CMP, "relation")), key=leaves.stable_key)), True)
     second = ("cond", ("call", "natural::is_term_regular_of_second_kind", (("fieldof", CMP, "rhs"),)), True)
     ref = {
-        "unary-operand": ((TERMS,), frozenset([("is", TERM, "Term::UnaryOperation")]), names_of(("proj", TERM, (("Term::UnaryOperation", "arg"),)))),
-        "binary-left-operand": ((TERMS,), frozenset([("is", TERM, "Term::BinaryOperation")]), names_of(("proj", TERM, (("Term::BinaryOperation", "lhs"),)))),
-        "binary-right-operand": ((TERMS,), frozenset([("is", TERM, "Term::BinaryOperation")]), names_of(("proj", TERM, (("Term::BinaryOperation", "rhs"),)))),
-        "left-side-of-equal-interval": ((FORMS,), frozenset([("is", ("each", FORMS), "AtomicFormula::Comparison"), eq_rel, second]), names_of(("fieldof", CMP, "lhs"))),
+        "unary-operand": names_of(TERMS, [("is", TERM, "Term::UnaryOperation")], ("proj", TERM, (("Term::UnaryOperation", "arg"),))),
+        "binary-left-operand": names_of(TERMS, [("is", TERM, "Term::BinaryOperation")], ("proj", TERM, (("Term::BinaryOperation", "lhs"),))),
+        "binary-right-operand": names_of(TERMS, [("is", TERM, "Term::BinaryOperation")], ("proj", TERM, (("Term::BinaryOperation", "rhs"),))),
+        "left-side-of-equal-interval": names_of(FORMS, [("is", ("at", FORMS), "AtomicFormula::Comparison"), eq_rel, second], ("fieldof", CMP, "lhs")),
     }
+    # the result is a set used for membership only: the loops are compared as a set (which of them runs first does not matter)
+    got = list(v[1]) if isinstance(v, tuple) and v[:1] == ("coll",) else []
     for label, want in ref.items():
-        hits = [g for g in got if g[2] == want[2]]
+        hits = [g for g in got if g[0] == want[0]]
         ctx.add("INTVARS", "source:%s" % label, hits == [want], ctx.site(b),
                 "int_variables adds the variables of %s for every element of %s under exactly the facts %s (found: %s)" % (
-                    rn(want[2][2][0][2][0]), rn(want[0][0]), sorted(map(str, want[1])), [sorted(map(str, h[1])) for h in hits] or "never"))
+                    rn(want[0][1][2][0]), rn(want[0][0]), sorted(map(str, want[1][0][0])), [sorted(map(str, a_[0])) for h in hits for a_ in h[1]] or "never"))
     extra = [g for g in got if g not in ref.values()]
-    ctx.add("INTVARS", "no-other-source", not extra and len(got) == len(ref), ctx.site(b), "no other variables are made integer-sorted: %s" % [rn(x[2]) for x in extra])
+    ctx.add("INTVARS", "no-other-source", bool(got) and not extra and len(got) == len(ref), ctx.site(b), "no other variables are made integer-sorted: %s" % [rn(x[0]) for x in extra],
+            construct=v if not got else None)
     # Rule::terms covers every top-level term of the rule
     reach = collect.reachable_types(fx, {A + "Term"})
     collect.check_method(ctx, "COLLECT", fx, A + "Body", "terms", reach)
@@ -476,6 +470,12 @@ def rule_templates(ctx):
             e_ = sym.Eval(fx, inline_depth=1, inline=lambda dp: False)
             v = reduce(e_.function(b, [C("Comparison", relation=C("Relation::" + rel), lhs=P("$l"), rhs=rhs), IV]))
             second = ("cond", ("call", "natural::is_term_regular_of_second_kind", (rhs,)), True)
+            if rk == "other":
+                # a term that is no binary operation is not of the second kind: where the predicate itself says so on this shape, the test is
+                # decided (a spelling that never asks it for such a term and one that asks and refuses are then the same)
+                sk = reduce(sym.Eval(fx, inline_depth=0).function(body_of(fx, "is_term_regular_of_second_kind", NT), [rhs]))
+                if sk == ("lit", False):
+                    v = leaves.replace(v, {second[1]: ("lit", False)})
             got = {}
             for ts, x in leaves.leaves(leaves.lift(v)):
                 ts = tuple(t for t in ts if not (t[0] == "is" and t[2] in ("Option::Some",)))
@@ -490,7 +490,9 @@ def rule_templates(ctx):
             def formula_of(x):
                 val, _, _ = opt_value(x)
                 return nf.formula(val)
-            if rel == "Equal":
+            if rel == "Equal" and rk == "other" and len(got) == 1 and () in got and len(got[()]) == 1:
+                plain = got[()][0]      # the second-kind test is decided (False) on this shape: only the plain case is left
+            elif rel == "Equal":
                 yes, no = got.get((second,)), got.get((("cond", second[1], False),))
                 if not (yes and no and len(yes) == 1 and len(no) == 1 and len(got) == 2):
                     split_ok = False
@@ -537,14 +539,18 @@ def rule_templates(ctx):
             want = ("ctor", "Formula::UnaryFormula", (("connective", ("ctor", "UnaryConnective::Negation", ())), ("formula", want)))
         ctx.add("TPL", "b_literal:" + s, val == want and tries == {ATOM}, ctx.site(b), "%s literal: %d negation(s) around the translated atom" % (s, depth))
     ctx.add("TPL", "b_literal:signs", set(fx.variants(A + "Sign")) == {"NoSign", "Negation", "DoubleNegation"}, "src/syntax_tree/asp/mini_gringo.rs", "signs: %s" % fx.variants(A + "Sign"))
+    from .. import comp
+    comp.use(fx)
     v, b = ev(fx, "natural_body", [C("Body", formulas=P("$fs")), IV])
-    val, tries, nones = opt_value(v)
-    ps = pushes(val[2][0]) if val[0] == "call" and val[1] == "Formula::conjoin" else None
-    EACH = ("each", P("$fs"))
-    wantp = {("AtomicFormula::Literal(_)", ("call", "natural::natural_b_literal", (("proj", EACH, (("AtomicFormula::Literal", "0"),)), IV))),
-             ("AtomicFormula::Comparison(_)", ("call", "natural::natural_comparison", (("proj", EACH, (("AtomicFormula::Comparison", "0"),)), IV)))}
-    gotp = {(c[-1][1], x) for c, x in ps} if ps is not None else set()
-    ctx.add("TPL", "body", gotp == wantp and len(tries) == 2 and not nones, ctx.site(b), "the body is the conjunction of the translated literals and comparisons, each refusal propagated")
+    FS = P("$fs")
+    got_body = comp.canon(comp.exits_as_try(v))
+    want_body = C("Option::Some", **{"0": ("call", "Formula::conjoin", (("coll", (((FS,), tuple(sorted([
+        (frozenset({("is", ("at", FS), "AtomicFormula::Literal")}), ("try", ("call", "natural::natural_b_literal", (("proj", ("at", FS), (("AtomicFormula::Literal", "0"),)), IV)))),
+        (frozenset({("is", ("at", FS), "AtomicFormula::Comparison")}), ("try", ("call", "natural::natural_comparison", (("proj", ("at", FS), (("AtomicFormula::Comparison", "0"),)), IV))))],
+        key=comp.stable_key))),)),))})
+    gotp, wantp, tries, nones = got_body, want_body, (1, 2), []
+    ctx.add("TPL", "body", gotp == wantp and len(tries) == 2 and not nones, ctx.site(b), "the body is the conjunction of the translated literals and comparisons, each refusal propagated",
+            construct=None if gotp == wantp else gotp)
 
     # head atom
     v, b = ev(fx, "natural_head_atom", [C("Atom", predicate_symbol=P("$p"), terms=P("$ts")), IV, P("$fresh")])
@@ -644,12 +650,10 @@ def rule_templates(ctx):
     check_conjoin(ctx)
     # program: all or nothing
     v, b = ev(fx, "natural", [P("$p")])
-    NR = ("call", "natural::natural_rule", (("each", ("place", "$p.rules")),))
-    okn = v[0] == "returns" and v[1][0] == ((((("iflet", "Option::Some(_)", NR), False),), ("ctor", "Option::None", ())))
-    full = v[1][-1][1] if v[0] == "returns" else v
-    theory = dict(dict(full[2])["0"][2]) if full[0] == "ctor" and full[1] == "Option::Some" else {}
-    ps = pushes(theory.get("formulas", ()))
-    okp = len(ps) == 1 and ps[0][1] == ("proj", NR, (("Option::Some", "0"),))
+    RULES_ = ("fieldof", P("$p"), "rules")
+    got_prog = comp.canon(comp.exits_as_try(v))
+    want_prog = C("Option::Some", **{"0": C("Theory", formulas=("coll", (((RULES_,), ((frozenset(), ("try", ("call", "natural::natural_rule", (("at", RULES_),)))),)),)))})
+    okn = okp = got_prog == want_prog
     ctx.add("TPL", "program", bool(okn and okp), ctx.site(b), "natural(program) is the list of natural_rule results in order, and None as soon as one rule is refused")
 
 
@@ -863,6 +867,63 @@ def is_tail(pm, n):
             return False
 
 
+def _refusal_propagates(fx, b, tgt):
+    """does the Option-returning function b answer None whenever its callee tgt does?  b is evaluated, every call of tgt is replaced by None,
+    and every remaining outcome must be None (a `?` on None, a collect into Option of a None element, a match whose None arm returns None ..)"""
+    from .. import comp, leaves
+    comp.use(fx)
+    NONE = ("ctor", "Option::None", ())
+    args = [("param", "$%d" % i) for i in range(len(b.get("params", [])))]
+    try:
+        v = sym.Eval(fx, inline_depth=0).function(b, args)
+    except Exception:
+        return False
+    name = flow_short(tgt)
+
+    def canon_all(t):
+        if isinstance(t, tuple) and t[:1] == ("returns",):
+            return ("returns", tuple((tuple((comp.canon(c), pol) + tuple(rest) for c, pol, *rest in conds) if conds != ("fallthrough",) else conds, comp.canon(val)) for conds, val in t[1]))
+        return comp.canon(t)
+    try:
+        t = canon_all(v)
+    except Exception:
+        return False
+    calls = {x for x in sym.subterms(t) if isinstance(x, tuple) and x[:2] == ("call", name)}
+    if not calls:
+        return False
+    t = leaves.replace(t, {c: NONE for c in calls})
+
+    def push_try(x):
+        # `collect::<Option<_>>()?`: a `?` on a collection of Options is a `?` on each element
+        if not isinstance(x, tuple):
+            return x
+        if isinstance(x, frozenset):
+            return x
+        x = tuple(push_try(y) if isinstance(y, tuple) else y for y in x)
+        if x[:1] == ("try",) and len(x) == 2 and isinstance(x[1], tuple) and x[1][:1] == ("coll",):
+            return ("coll", tuple((src, tuple((ts, ("try", e)) for ts, e in alts)) for src, alts in x[1][1]))
+        return x
+    t = push_try(t)
+    try:
+        lv = leaves.leaves(comp.case_of_case(t))
+    except Exception:
+        return False
+    if not lv:
+        return False
+    for ts, val in lv:
+        whole = ("x", tuple(ts), val)
+        if ("try", NONE) in set(y for y in sym.subterms(whole) if isinstance(y, tuple)):
+            continue
+        if val != NONE:
+            return False
+    return True
+
+
+def flow_short(dp):
+    from ..flow import short
+    return short(dp)
+
+
 def rule_flow_err(ctx):
     fx = ctx.facts
     opt_fns = {}
@@ -912,6 +973,9 @@ def rule_flow_err(ctx):
                     p_ = pm.get(id(p_))
                     seen += 1
             ok = how in ("?", "returned") or allowed_other.get((caller, short)) == how or (how == "closure" and caller == "natural_b_atom") or (how in ("match", "unwrap_or_else", "map_or_else") and "mu" in caller) or (how in ("is_some",) and "regularity" in caller)
+            if not ok and b.get("ret_ty", "").startswith("std::option::Option") and _refusal_propagates(fx, b, tgt):
+                # not one of the listed idioms, but decided on what the caller computes: with the callee answering None the caller answers None
+                ok, how = True, "propagated"
             ctx.add("FLOW-ERR", "%s->%s:%s" % (caller, short, how), ok, ctx.site(b), "the Option of %s is consumed in %s by `%s`" % (short, caller, how))
     ctx.floor("FLOW-ERR", "option-call-sites", n, 6)
     # the expect sites: guarded by the second-kind test
